@@ -127,6 +127,85 @@ theorem statesOf_installed {n : String × List Um.Broker.SlotRange} (hn : n ∈ 
 
 end hist
 
+/-! ## switch commands -/
+
+/-- the key `handle_switch` looks up: the received range with the tag turned into `Importing` of the same meta -/
+def importingKey (key : TaskKey) : Option TaskKey :=
+  match key.range.tag with
+  | .none => none
+  | .migrating info => some { key with range := { key.range with tag := .importing info } }
+  | .importing info => some { key with range := { key.range with tag := .importing info } }
+
+/-- a switch command that is not accepted changes nothing -/
+theorem handleSwitch_refused (p : ProxyState) (key : TaskKey) (sub : MgrSub)
+    (h : (handleSwitch p key sub).2 ≠ .ok) : (handleSwitch p key sub).1 = p := by
+  unfold handleSwitch at h ⊢
+  cases htag : key.range.tag with
+  | none => rfl
+  | migrating info =>
+    simp only [htag] at h ⊢
+    split
+    · rfl
+    · split
+      · rfl
+      · split
+        · rfl
+        · split
+          · rfl
+          · rename_i h1 h2 _ t hf h3
+            simp only [h1, h2, hf, h3, if_false, Bool.false_eq_true] at h
+            exact absurd rfl h
+  | importing info =>
+    simp only [htag] at h ⊢
+    split
+    · rfl
+    · split
+      · rfl
+      · split
+        · rfl
+        · split
+          · rfl
+          · rename_i h1 h2 _ t hf h3
+            simp only [h1, h2, hf, h3, if_false, Bool.false_eq_true] at h
+            exact absurd rfl h
+
+/-- **only the exact `MigrationTaskMeta` of a task is accepted**: a switch command whose (importing-tagged) meta
+is not a key of the task map is refused -/
+theorem handleSwitch_foreign (p : ProxyState) (key : TaskKey) (sub : MgrSub)
+    (hk : ∀ k', importingKey key = some k' → ∀ t ∈ p.tasks, t.key ≠ k') :
+    (handleSwitch p key sub).2 ≠ .ok := by
+  unfold handleSwitch
+  cases htag : key.range.tag with
+  | none => simp
+  | migrating info =>
+    have hnone : p.tasks.find? (fun t => t.key == { key with range := { key.range with tag := .importing info } }) = none := by
+      apply List.find?_eq_none.mpr
+      intro t ht
+      have hik : importingKey key = some { key with range := { key.range with tag := .importing info } } := by
+        simp [importingKey, htag]
+      have := hk _ hik t ht
+      simpa using this
+    simp only
+    split
+    · simp
+    · split
+      · simp
+      · rw [hnone]; simp
+  | importing info =>
+    have hnone : p.tasks.find? (fun t => t.key == { key with range := { key.range with tag := .importing info } }) = none := by
+      apply List.find?_eq_none.mpr
+      intro t ht
+      have hik : importingKey key = some { key with range := { key.range with tag := .importing info } } := by
+        simp [importingKey, htag]
+      have := hk _ hik t ht
+      simpa using this
+    simp only
+    split
+    · simp
+    · split
+      · simp
+      · rw [hnone]; simp
+
 /-! ## a concrete history (the destination of c14b/2: R1 running, R2 exposed by a later install) -/
 
 def exI1 : Um.Broker.MigInfo := ⟨1, "127.0.0.1:6001", "127.0.0.1:7001", "127.0.0.1:5299", "127.0.0.1:7000"⟩
